@@ -16,6 +16,14 @@ PERIODIC = dict(family='periodic', interval=0.5)
 
 
 def backoff_specs():
+    for spec in list(_backoff_specs()):
+        yield spec
+    for spec in list(_backoff_specs()):
+        if spec.get('jitter') or len(spec) <= 2:
+            yield dict(spec, positional=True)
+
+
+def _backoff_specs():
     yield dict(family='periodic', interval=0)
     yield dict(family='periodic', interval=0.5)
     yield dict(family='periodic', interval=0.5, jitter=[0.25, 0.5, 0.125])
